@@ -43,6 +43,8 @@ def gen_script(rng, scenario, knobs):
     dist = []
     for _ in range(n_dist):
         kind = rng.choice(kinds)
+        if kind == 'user_shutdown' and eff['failure'] == 'SHUTDOWN':
+            kind = 'user_restart'  # keeps the cause of a SHUTTING_DOWN entry unambiguous for the monitors
         d = {'kind': kind, 'gap_ticks': rng.choice([0, 1, 2, 3, k_ticks + 2, k_ticks + 2]),
              'target': rng.choice(nicks), 'jitter': round(rng.uniform(0.0, TICK), 2)}
         if kind in ('restart', 'restart_master'):
